@@ -3,13 +3,13 @@
    Only property theorems live here: each is closed by [exact], pinned by
    [Check ... : statement] and followed by [Print Assumptions]. *)
 From Coq Require Import List NArith ZArith Permutation.
-From Echo Require Import Base.Bytes Model.Cbor Model.Fmt Proofs.CborFloatProofs Proofs.CborProofs Proofs.FmtProofs.
+From Echo Require Import Base.Bytes Model.Cbor Model.Fmt Proofs.CborFloatProofs Proofs.CborProofs Proofs.CborBudgetProofs Proofs.FmtProofs.
 Import ListNotations.
 Open Scope N_scope.
 
-(* decode . encode = norm: every well-formed value (any ciborium Value without tags whose
-   map keys have distinct encodings, i.e. whenever encode_value succeeds) decodes back to its
-   normal form (integral floats in [-2^64, 2^64) as integers, NaN as the canonical NaN, map
+(* decode . encode = norm: every well-formed value (any ciborium Value of nesting depth <= 128
+   -- MAX_DECODE_DEPTH, the documented domain of decode_value -- without tags and whose map keys
+   have distinct encodings, i.e. whenever encode_value succeeds) decodes back to its normal form (integral floats in [-2^64, 2^64) as integers, NaN as the canonical NaN, map
    entries in encoded-key order). *)
 Theorem cbor_roundtrip : forall v b,
   wf_value v = true -> enc v = Ok b -> decode b = Ok (norm v).
@@ -45,6 +45,36 @@ Check cbor_enc_map_order_free : forall es1 es2 b,
   Permutation es1 es2 -> enc (VMap es1) = Ok b -> enc (VMap es2) = Ok b.
 Print Assumptions cbor_enc_map_order_free.
 
+(* the domain boundary is exact: depth 128 round-trips, depth 129 encodes but is rejected by the
+   decoder (Decode("nesting too deep")); [wf_value] requires vdepth <= 128 *)
+Theorem cbor_depth_129_encodes_but_is_rejected :
+  let v := nest 129 (VInt 0) in
+  wf_shape v = true /\ vdepth v = 129 /\
+  exists b, enc v = Ok b /\ decode b = Err EDepth /\ decode_nb b = Err EDepth.
+Proof. exact depth_129_encodes_but_is_rejected. Qed.
+Check cbor_depth_129_encodes_but_is_rejected :
+  let v := nest 129 (VInt 0) in
+  wf_shape v = true /\ vdepth v = 129 /\
+  exists b, enc v = Ok b /\ decode b = Err EDepth /\ decode_nb b = Err EDepth.
+Print Assumptions cbor_depth_129_encodes_but_is_rejected.
+
+Example cbor_depth_128_round_trips :
+  let v := nest 128 (VInt 0) in wf_value v = true /\ exists b, enc v = Ok b /\ decode b = Ok v.
+Proof. exact depth_128_round_trips. Qed.
+
+(* the element budget of decode_value (declared array/map lengths charged against bytes.len())
+   never changes an accepted value and is transparent on every input the budget-free decoder
+   [decode_nb] accepts: it only turns some rejections into Incomplete *)
+Theorem cbor_budget_only_removes : forall b v, decode b = Ok v -> decode_nb b = Ok v.
+Proof. exact budget_only_removes. Qed.
+Check cbor_budget_only_removes : forall b v, decode b = Ok v -> decode_nb b = Ok v.
+Print Assumptions cbor_budget_only_removes.
+
+Theorem cbor_budget_transparent : forall b v, wf_bytes b = true -> decode_nb b = Ok v -> decode b = Ok v.
+Proof. exact budget_transparent. Qed.
+Check cbor_budget_transparent : forall b v, wf_bytes b = true -> decode_nb b = Ok v -> decode b = Ok v.
+Print Assumptions cbor_budget_transparent.
+
 (* every other spelling is rejected: a byte string different from THE encoding of v never decodes to v *)
 Theorem cbor_noncanonical_rejected : forall v b b',
   wf_value v = true -> enc v = Ok b -> wf_bytes b' = true -> b' <> b -> decode b' <> Ok (norm v).
@@ -64,16 +94,16 @@ Print Assumptions cbor_decode_normal.
 
 (* the encoder emits bytes *)
 Theorem cbor_enc_wf : forall v b, wf_value v = true -> enc v = Ok b -> wf_bytes b = true.
-Proof. exact enc_wf. Qed.
+Proof. exact cbor_enc_wf_core. Qed.
 Check cbor_enc_wf : forall v b, wf_value v = true -> enc v = Ok b -> wf_bytes b = true.
 Print Assumptions cbor_enc_wf.
 
 (* rejection per non-canonical class *)
 Theorem cbor_reject_trailing : forall b v x xs,
-  wf_bytes b = true -> decode b = Ok v -> decode (b ++ x :: xs) = Err ETrailing.
+  wf_bytes (b ++ x :: xs) = true -> decode b = Ok v -> decode (b ++ x :: xs) = Err ETrailing.
 Proof. exact reject_trailing. Qed.
 Check cbor_reject_trailing : forall b v x xs,
-  wf_bytes b = true -> decode b = Ok v -> decode (b ++ x :: xs) = Err ETrailing.
+  wf_bytes (b ++ x :: xs) = true -> decode b = Ok v -> decode (b ++ x :: xs) = Err ETrailing.
 Print Assumptions cbor_reject_trailing.
 
 Theorem cbor_reject_tag : forall b0 r, 192 <= b0 < 224 -> decode (b0 :: r) = Err ETag.
